@@ -9,6 +9,7 @@ from ..astutil import alpha, dotted, is_const, norm, walk_body
 from ..finite import NeedAtom, k_eq
 from ..dtree import decision_tree
 from ..ordertypes import OrderEval, P, R, Raised, weak_orderings
+from ..dcmodel import positional_call
 from ..report import Checker
 from ..srcmodel import Unsupported
 
@@ -413,7 +414,7 @@ def r_multiorigin_init(ck: Checker, rule: str = "R-MERGE-FLAT") -> None:
         sets: dict[str, list[str]] = {}
         for c2 in walk_body(stmts_):
             if isinstance(c2, ast.Call) and dotted(c2.func) in ("object.__setattr__", "setattr") and len(c2.args) == 3 and isinstance(c2.args[1], ast.Constant):
-                sets.setdefault(c2.args[1].value, []).append(alpha(c2.args[2]))
+                sets.setdefault(c2.args[1].value, []).append(alpha(positional_call(ck.repo, c2.args[2], ORIGIN)))
         src, pos = sets.get("source", []), sets.get("position", [])
         if pos[-1:] != ["PositionSet(tuple((_b0.position for _b0 in self.origins)))"]:
             bad.append(f"position is {pos}")
